@@ -166,7 +166,7 @@ Proof.
 Qed.
 
 Definition kth_nbrs (G : iograph) (v : Z) : list Z :=
-  match io_kind G with KDirected => gio_preds G v | _ => gio_neighbors G v end.
+  match io_kind G with GioDirected => gio_preds G v | _ => gio_neighbors G v end.
 
 Lemma write_kth_shape G : gio_write_kth G =
   ([gt_c; gt_sp] ++ io_name G) ++ gt_nl ::
@@ -180,7 +180,7 @@ Proof.
   rewrite lines_line by exact Hb. rewrite IH. reflexivity.
 Qed.
 
-Theorem kth_roundtrip G : gio_wf G -> io_kind G <> KBipartite -> kth_name_ok (io_name G) ->
+Theorem kth_roundtrip G : gio_wf G -> io_kind G <> GioBipartite -> kth_name_ok (io_name G) ->
   exists nm, gio_read_kth (io_kind G) (gio_write_kth G) = GOk (mkIOG (io_kind G) nm (io_n G) (io_r G) (io_edges G)).
 Proof.
   intros (Hn & Hr & Hk & Hs & Hf) HK Hname. specialize (Hk HK). unfold gio_read_kth.
@@ -277,8 +277,8 @@ Lemma write_kthb_shape G : gio_write_kthb G =
   ((gt_print_Z (io_n G + io_r G)) ++ gt_nl :: (concat (map (fun u => row_text (u, kthb_row G u)) (gt_range1 (io_n G))) ++ [gt_nl])).
 Proof. unfold gio_write_kthb, row_text, kthb_row. cbn [fst snd]. norm_app. reflexivity. Qed.
 
-Theorem kthb_roundtrip G : gio_wf G -> io_kind G = KBipartite -> kth_name_ok (io_name G) ->
-  exists nm, gio_read_kthb (gio_write_kthb G) = GOk (mkIOG KBipartite nm (io_n G) (io_r G) (io_edges G)).
+Theorem kthb_roundtrip G : gio_wf G -> io_kind G = GioBipartite -> kth_name_ok (io_name G) ->
+  exists nm, gio_read_kthb (gio_write_kthb G) = GOk (mkIOG GioBipartite nm (io_n G) (io_r G) (io_edges G)).
 Proof.
   intros (Hn & Hr & _ & Hs & Hf) HK Hname. unfold gio_read_kthb.
   set (ls := gt_lines (gio_write_kthb G)). exists (gio_kth_name ls).
@@ -297,14 +297,14 @@ Proof.
   2:{ intros k []. }
   cbn [gio_bind fst snd app]. replace (L + 1 - 1) with L by lia. replace (L + R - (L + 1) + 1) with R by lia.
   rewrite new_ok by lia. cbn [gio_bind].
-  set (G0 := mkIOG KBipartite (gio_kth_name ls) L R []).
+  set (G0 := mkIOG GioBipartite (gio_kth_name ls) L R []).
   assert (Hde : gio_dict_edges L (map (fun u => (u, kthb_row G u)) (zseq 1 (Z.to_nat L))) =
                 flat_map (fun u => map (fun v => (u, v)) (gio_succs G u)) (zseq 1 (Z.to_nat L))).
   { unfold gio_dict_edges. rewrite flat_map_concat_map, map_map, <- flat_map_concat_map.
     apply flat_map_ext. intros u. cbn [fst snd]. unfold kthb_row. rewrite map_map. apply map_ext. intros v. f_equal. fold L. lia. }
   rewrite Hde. rewrite add_edges_ok.
   - unfold G0, gio_with_edges. cbn [io_kind io_name io_n io_r io_edges]. do 2 f_equal.
-    replace (map (edge_norm KBipartite) (flat_map (fun u => map (fun v => (u, v)) (gio_succs G u)) (zseq 1 (Z.to_nat L))))
+    replace (map (edge_norm GioBipartite) (flat_map (fun u => map (fun v => (u, v)) (gio_succs G u)) (zseq 1 (Z.to_nat L))))
       with (flat_map (fun u => map (fun v => (u, v)) (gio_succs G u)) (zseq 1 (Z.to_nat L))) by (symmetry; apply map_id).
     apply insert_all_rebuild; [exact Hs|]. intros [a b]. rewrite in_flat_map. split.
     + intros [u [_ Hin]]. apply in_map_iff in Hin as [v [Hx Hv]]. inversion Hx; subst. now apply succs_In.
